@@ -37,6 +37,10 @@ ASSUMPTIONS = [
     "an optimiser class is instantiated as cls(hedger.model.parameters()) (what the code does; the docstring says hedger.parameters())",
     "reference loop and fit() consume the RNG identically when they perform the same operations in the same order, so parameters are bit-identical on CPU",
 ]
+ANCHORS = ['pfhedge.nn.modules.hedger:Hedger.fit',
+           'pfhedge.nn.modules.hedger:Hedger._configure_optimizer',
+           'pfhedge.nn.modules.hedger:Hedger.compute_loss',
+           'pfhedge._utils.operations:ensemble_mean']
 DECIDING = ["trace.automaton", "reference.parameters", "reference.history", "steps.count"]
 REQUIRED_BRANCHES = ["k=0", "k>=2", "validation.off", "n_times>1", "optimizer.class", "optimizer.instance", "model.lazy", "model.dropout", "stale_grad",
                      "init_state.given"]
